@@ -15,6 +15,7 @@
 #include <unistd.h>
 
 #include "c06_forest.h"
+#include "c20_ref.h"
 #include "gt.h"
 #include "gtrun.h"
 #include "prop.h"
@@ -212,6 +213,9 @@ std::string validityToken(const IssuePtr &is)
     if ((item == "units" || item == "unit") && has("reference")) {
         return "units-child-reference";
     }
+    if (has("contains multiple components with the name")) {
+        return "component-name-not-unique";
+    }
     if (has("contains multiple units with the name")) {
         return "units-name-not-unique";
     }
@@ -228,7 +232,7 @@ std::string validityToken(const IssuePtr &is)
 // and process limits are hit), not the code under test: retried, then counted; rr.error is left empty in that case.
 bool runCRobustly(const std::string &iface, const std::string &impl, const RunPlan &plan, RunResult &rr)
 {
-    for (int attempt = 0; attempt < 3; ++attempt) {
+    for (int attempt = 0; attempt < 1; ++attempt) {
         rr = RunResult();
         if (gRunner->runC(iface, impl, plan, rr)) {
             return true;
@@ -658,6 +662,14 @@ void run(Src &src, Case &c)
             }
             c.count("analysed");
             RunPlan plan = makeRunPlan(truth, map);
+            // Half of the ODE / DAE cases run the generated code under the stale-order protocol (kit/runner.h, kit/c20_ref.h: as
+            // in C03): what computeVariables fails to recompute becomes visible. Decided from the content hash, not the tape.
+            const C20Staleness staleness = c20Staleness(truth);
+            plan.staleOrder = plan.ode && (c.hash >> 7) % 2 == 0;
+            if (plan.staleOrder) {
+                plan.staleResolve = c20StaleResolve(truth, map, staleness);
+                c.cls("stale-order");
+            }
             auto gen = Generator::create();
             gen->setModel(am);
             std::string iface = gen->interfaceCode(), impl = gen->implementationCode();
@@ -673,7 +685,7 @@ void run(Src &src, Case &c)
             } else {
                 c.count("programs");
                 long comparisons = 0;
-                std::string v = compareRunWithTruth(truth, map, rr, kTol, &comparisons);
+                std::string v = compareRunWithTruth(truth, map, plan.staleOrder ? c20TolerateStale(truth, map, rr, staleness) : rr, kTol, &comparisons);
                 c.count("comparisons", comparisons);
                 if (!v.empty()) {
                     fails.emplace_back("C06.value|" + firstLine(v), withFlat(rest(v)) + "\n--- implementation ---\n" + impl.substr(0, 8000));
@@ -733,7 +745,12 @@ void runOuter(Src &src, Case &c)
     for (const auto &x : all) {
         if (knownFindingIndex("C06", x.first) >= 0) {
             std::ofstream k(std::string(dev) + "/known.log", std::ios::app);
-            k << x.first << "\n";
+            k << "#" << getpid() << "-" << ++n << " " << x.first << "\n";
+            if (const char *cur = getenv("C06_DEV_CUR")) {
+                std::ifstream in(cur, std::ios::binary);
+                std::ofstream out(std::string(dev) + "/case-" + std::to_string(getpid()) + "-" + std::to_string(n) + ".cur", std::ios::binary);
+                out << in.rdbuf();
+            }
             continue;
         }
         std::ofstream o(std::string(dev) + "/failures.log", std::ios::app);
